@@ -220,6 +220,13 @@ fn attempts() -> Vec<(&'static str, C, bool, bool)> {
         ("script _event.name ?=", C::Script(X::Raw("_event.name ?= 'z'".into())), true, false),
         ("script _event.extra ?=", C::Script(X::Raw("_event.extra ?= 1".into())), true, false),
         ("script _ioprocessors ?=", C::Script(X::Raw("_ioprocessors ?= 1".into())), true, false),
+        ("assign _event['name']", asg("_event['name']", X::Str("x".into())), true, true),
+        ("assign _event['sendid']", asg("_event['sendid']", X::Str("x".into())), true, true),
+        ("assign _event['data']", asg("_event['data']", X::Int(1)), true, true),
+        ("script _event['name'] =", C::Script(X::Raw("_event['name'] = 'y'".into())), true, true),
+        ("script _event['name'] ?=", C::Script(X::Raw("_event['name'] ?= 'y'".into())), true, false),
+        ("script _event['extra'] ?=", C::Script(X::Raw("_event['extra'] ?= 1".into())), true, false),
+        ("assign _ioprocessors member", asg("_ioprocessors['scxml']", X::Int(1)), true, true),
         ("foreach item=_name", C::ForEach { array: X::IntArr(vec![1, 2]), item: "_name".into(), index: None, body: vec![] }, true, true),
         ("foreach item=_sessionid", C::ForEach { array: X::IntArr(vec![1, 2]), item: "_sessionid".into(), index: None, body: vec![] }, true, true),
         ("foreach index=_sessionid", C::ForEach { array: X::IntArr(vec![1, 2]), item: "it".into(), index: Some("_sessionid".into()), body: vec![] }, true, true),
@@ -386,7 +393,7 @@ impl Check for C09 {
     }
     fn rule(&self) -> String {
         "three generators. event-fields: host events with generated name/sendid/origin/origintype/params|content plus raised, #_internal-sent and error events; every handler marks all fields of _event (and a second parallel region re-reads the name in the same microstep): read == event as dequeued == event as sent by the host. \
-         read-only: 1-4 attempts (17 kinds: <assign> to _sessionid/_name/_ioprocessors/_event/_event.name/_event.data, <script> with '=' and (rfsm) '?=', <foreach item|index=system variable>) each in its own macrostep: error.execution dequeued, rest of the block not executed, values read afterwards unchanged. \
+         read-only: 1-4 attempts (24 kinds, member and index forms: <assign> to _sessionid/_name/_ioprocessors/_event/_event.name/_event.data, <script> with '=' and (rfsm) '?=', <foreach item|index=system variable>) each in its own macrostep: error.execution dequeued, rest of the block not executed, values read afterwards unchanged. \
          binding: generated statecharts whose states declare data, marks read own/foreign variables and In() of two states in onentry/onexit/transition bodies (partially updated configurations), transitions assign foreign variables before/after first entry; early or late binding; oracle = reference interpreter. \
          rfsm-expression and strict ECMAScript (null data model: In() guards are covered by C02). Non-trivial = >= 2 field-reading marks / a modification attempt / late binding or an In() mark inside a microstep that changes >= 2 states; distinct = hash of document + events."
             .into()
